@@ -747,8 +747,12 @@ class Frame(object):
         if bounding_f_range is None:
             bounding_min, bounding_max = 0, self.fchans
         else:
-            bounding_min = max(self.get_index(bounding_f_range[0]), 0)
-            bounding_max = min(self.get_index(bounding_f_range[1]), self.fchans)
+            # Clip both ends to the band, so that a range entirely outside of
+            # it is empty rather than wrapping around as negative indices
+            bounding_min = min(max(self.get_index(bounding_f_range[0]), 0), self.fchans)
+            bounding_max = min(max(self.get_index(bounding_f_range[1]), 0), self.fchans)
+            if bounding_max <= bounding_min:
+                return np.zeros(self.shape)
             
         restricted_fs = self.fs[bounding_min:bounding_max]
         if integrate_f_profile:
